@@ -57,7 +57,14 @@ impl PhysLayer {
                 let count = x.read(buffer).await?;
                 (count, PhysAddr::None)
             }
-            Self::Udp(x) => x.read(buffer).await?,
+            Self::Udp(x) => loop {
+                // an empty datagram is not the end of anything: only a stream signals
+                // its end by a read of length zero
+                let (count, addr) = x.read(buffer).await?;
+                if count > 0 {
+                    break (count, addr);
+                }
+            },
             #[cfg(feature = "enable-tls")]
             Self::Tls(x) => {
                 let count = x.read(buffer).await?;
